@@ -60,7 +60,9 @@ def parse (s : List Char) : Except PErr (Option Raw) :=
       let major ← pyInt majorS
       let minor ← pyInt minorS
       if isDigitStr buildS then
-        .ok (some ⟨major, minor, parseNat buildS, []⟩)
+        -- `if str(int(build)) != build: return False` (no leading zeros, e.g. `1.0.05`)
+        if natStr (parseNat buildS) != buildS then .ok none
+        else .ok (some ⟨major, minor, parseNat buildS, []⟩)
       else
         let patch := buildS.drop 1
         -- `build[0]` of an empty string
